@@ -135,7 +135,12 @@ func (s *sub) Unsubscribe(clientID string, topics ...string) error {
 	defer s.mu.Unlock()
 	c := s.pool.Get()
 	defer c.Close()
-	_, err := c.Do("hdel", subPrefix+clientID, topics)
+	args := make([]interface{}, 0, len(topics)+1)
+	args = append(args, subPrefix+clientID)
+	for _, v := range topics {
+		args = append(args, v)
+	}
+	_, err := c.Do("hdel", args...)
 	if err != nil {
 		return err
 	}
